@@ -136,6 +136,52 @@ class PyInit(FunctionContract):
                    and f.get("function_map") == ("map", (("forced_prefix", "self._functions."),), 0)))]
 
 
+class RefCount(FunctionContract):
+    """FortranNameManager.name_refcount(name, qualified_with_state): the reference count of a per-step variable is the local
+    name of the KEY 'dagrt_refcnt_' + name - a key no user variable can have (user names never start with dagrt_), so a
+    count and a variable never share an entry of the local map; the count of a persistent variable is
+    [dagrt_state%]dagrt_refcnt_ + the variable's own component name"""
+    prop = "C13"
+    relpath = "dagrt/codegen/fortran.py"
+    qualname = "FortranNameManager.name_refcount"
+
+    def __init__(self, persistent, qualified):
+        self.persistent, self.qualified = persistent, qualified
+        self.variant_name = "%s,%s" % ("persistent" if persistent else "per-step", "qualified" if qualified else "bare")
+
+    def params(self, ctx):
+        self.log = []
+        ctx.env["self"] = VObj(TObj("NameManager", {}), {})
+        ctx.env["name"] = VPy("<key>")
+        ctx.env["qualified_with_state"] = VBool(B(self.qualified))
+
+    def _call(self, which):
+        def f(ctx, it, args, kw):
+            a = tuple(getattr(ctx.deref(x), "py", "?") for x in args)
+            k = tuple(sorted((n, getattr(ctx.deref(v), "py", "None" if isinstance(ctx.deref(v), VNone) else "?")) for n, v in kw.items()))
+            self.log.append((which, a, k))
+            return VPy("<%s name>" % which)
+        return f
+
+    calls = property(lambda self: {"self.name_local": self._call("local"), "self.name_global": self._call("global")})
+    names = property(lambda self: {"is_state_variable": VFunc("is_state_variable", lambda c, i, a, k: VBool(B(self.persistent)))})
+
+    def binop_hook(self, ctx, it, op_, a, b):
+        import ast as pyast
+        if op_ is pyast.Add and isinstance(a, VPy) and isinstance(b, VPy):
+            return VPy(str(a.py) + str(b.py))
+        return None
+
+    def ensures(self, st):
+        r = getattr(st._deref(st.result), "py", None)
+        if self.persistent:
+            want = ("dagrt_state%" if self.qualified else "") + "dagrt_refcnt_<global name>"
+            return [("count-of-a-persistent-variable-is-dagrt_refcnt_-plus-its-own-component-name",
+                     B(self.log == [("global", ("<key>",), ())] and r == want))]
+        return [("count-of-a-per-step-variable-is-the-local-name-of-the-reserved-key-dagrt_refcnt_<name>(no-other-key,-no-prefix-argument)",
+                 B(self.log == [("local", ("dagrt_refcnt_<key>",), ())] and r == "<local name>"))]
+
+
 PY = "dagrt/codegen/python.py"
 FO = "dagrt/codegen/fortran.py"
 G = "get_or_make_name_for_key"
@@ -154,4 +200,4 @@ def units():
         FunctionUnit(NMContract(FO, "FortranNameManager", "name_local",
                                 [("local_map", G, ("<key>",), (("prefix", "lploc_"),)), ("local_map", G, ("<key>",), (("prefix", "None"),))],
                                 arg="var", extra_arg=("prefix", NONE))),
-    ]
+    ] + [FunctionUnit(RefCount(p_, q_)) for p_ in (False, True) for q_ in (False, True)]
